@@ -259,6 +259,7 @@ var mergeSECSets = [][]string{
 	{"IAT", "PPD", "CTX"},        // IAT batches next to standard ones
 	{"ADV", "PPD", "CTX"},        // some files are ADV files
 	{"ADV", "IAT", "PPD", "COR"}, // NOC batches
+	{"COR"}, {"COR", "CTX"},      // notifications of change and refused ones (Addenda98 / Addenda98Refused)
 }
 
 func isASCII(s string) bool {
@@ -283,7 +284,7 @@ func mergeCase(fr *gen.Rand) (files []*ach.File, cond ach.Conditions, lClass, dC
 	o.Routes = []int{0, 1, 1, 2, 2, 3}[fr.Intn(6)]
 	o.HeaderPool = []int{0, 1, 2, 2, 3, 5}[fr.Intn(6)]
 	o.SECs = mergeSECSets[fr.Intn(len(mergeSECSets))]
-	if fr.Chance(1, 4) {
+	if fr.Chance(1, 4) || (len(o.SECs) > 0 && o.SECs[0] == "COR") {
 		o.Categories = gen.AllCategories()
 	}
 	o.PresetTraces = fr.Bool()
